@@ -64,13 +64,35 @@ def c04Fragment : Handler := fun j => do
   let ds := (reach (env.decls.length + 1) ((colTys.flatMap Ty.refs).eraseDups)).filterMap env.find?
   let inFrag := E2ESql.fragmentSqlB env w script ds
   let bad := ds.filter fun d => !(E2ESql.declOkSql env w d) || !(E2ESql.providedSql env script d)
+  let why := ds.flatMap fun d =>
+    (if E2ESql.providedSql env script d then [] else ["script-does-not-provide-the-expected-validator(two types, one name)"]) ++
+    (match d.body with
+     | .named u =>
+       (if w.nameds.contains d.q then (if E2ESql.declOkSql env w d then [] else ["named:wrapped-but-not-a-slice-or-map-of-unions"])
+        else (if E2E.shapeOk u then [] else ["named:shape"]) ++ (if E2E.noUnion env u then [] else ["named:container-of-unions-without-methods"]) ++
+          (if E2ESql.lensOk u then [] else ["named:array-length"])) ++
+       (if fnName env (.ref d.q) == fnName env u then [] else ["named:validator-name"])
+     | .enum _ bk ms _ => if E2ESql.enumOkSql bk ms then [] else ["enum:float-bool-or-literal-form"]
+     | .struct fs _ _ =>
+       let ser := E2E.serialised fs
+       (if ser.all fun f => !(tagOptions f.tag).contains "string" then [] else ["struct:string-option"]) ++
+       (if ser.all fun f => Tags.get f.tag "gomacro" != "ignore" then [] else ["struct:gomacro-ignore"]) ++
+       (if ser.all fun f => (Tags.namePart (Tags.get f.tag "json") == "" || Tags.isValidTag (Tags.namePart (Tags.get f.tag "json"))) then [] else ["struct:invalid-json-name"]) ++
+       (if ser.all fun f => E2E.shapeOk f.ty then [] else ["struct:field-shape"]) ++
+       (if ser.all fun f => (isUnionTy env f.ty || E2E.noUnion env f.ty) then [] else ["struct:union-under-anonymous-container"]) ++
+       (if ser.all fun f => !Tags.opaqueFor f.tag "typescript" then [] else ["struct:opaque-field"]) ++
+       (if ser.all fun f => E2ESql.lensOk f.ty then [] else ["struct:array-length"]) ++
+       (if (ser.map fun f => Tags.jsonName f.tag f.name).Nodup then [] else ["struct:duplicate-key"]) ++
+       (if (ser.any (fun f => isUnionTy env f.ty)) && !w.structs.contains d.q then ["struct:no-generated-wrapper"] else [])
+     | .union ms => if ms.all (fun m => E2E.noUnion env m && E2ESql.memberOkSql env m) then [] else ["union:member-may-encode-to-null-or-is-not-named"])
+  let why := why.eraseDups
   let cols := colTys.map fun t =>
     Json.bool ((E2ESql.subTys t).all (E2ESql.scriptHas env script) && E2E.noUnion env t && E2E.shapeOk t && E2ESql.lensOk t)
   let vals ← (getListD j "values").mapM fun x => do
     let t ← decTy (← getObj x "type")
     let v ← decGoVal (← getObj x "val")
     pure (Json.bool (E2E.hasType env 64 t v))
-  return Json.mkObj [("inFragment", Json.bool inFrag), ("outside", strs (bad.map (·.name))),
+  return Json.mkObj [("inFragment", Json.bool inFrag), ("outside", strs (bad.map (·.name))), ("why", strs why),
     ("columns", Json.arr cols.toArray), ("hasType", Json.arr vals.toArray)]
 
 def decPgFunc (j : Json) : PgFunc :=
